@@ -132,6 +132,16 @@ func runLifecycle(sc *Scenario, out *Out) {
 		}
 		remotes = append(remotes, r)
 	}
+	if st.Op == "Backlog" {
+		// the remotes are interested: some of them get unchoked
+		for _, r := range remotes {
+			r.c.SetWriteDeadline(time.Now().Add(2 * time.Second))
+			r.c.Write([]byte{0, 0, 0, 1, 2})
+		}
+		for n := 0; n < 200 && peer.NumUnchoking() == 0; n++ {
+			time.Sleep(10 * time.Millisecond)
+		}
+	}
 	w.verify(0)
 	w.t.Have(0, true)
 	rd := w.t.NewReader(context.Background(), int64(w.psize)+10, 100)
